@@ -7,8 +7,8 @@ import sys
 HERE = os.path.dirname(os.path.dirname(os.path.abspath(__file__)))
 
 TB = ("Trusted: the analyser itself (resolver, IR normalisation, kind tables), validated by the "
-      "self-validation corpus in the thorough tier and by tools/regress.sh (534 independently seeded defects must be "
-      "reported, 420 independent behaviour-preserving commits must stay silent); exit 2 on anything unrecognised. "
+      "self-validation corpus in the thorough tier and by tools/regress.sh (535 independently seeded defects must be "
+      "reported, 421 independent behaviour-preserving commits must stay silent); exit 2 on anything unrecognised. "
       "Every model check also evaluates the premises its rules stand on (transparent properties, constant relations, "
       "Node defaults, metric purity, and - where a queue or an arc structure is involved - the heap rules, the "
       "arc typestate and destroy/reset rules). ")
